@@ -107,6 +107,29 @@ Theorem C04_set_order_untouched : forall k perm sc snap s s' log,
 Proof. exact activate_sets_keep_order. Qed.
 Print Assumptions C04_set_order_untouched.
 
+(* a program-made set after the call is exactly the set before minus the agents that have died, order
+   kept (removal from the model alone does not take an agent out of it) *)
+Theorem C04_user_set_exact : forall ops k r perm sc snap s' log j m,
+  lookup r (sets (reached ops)) = Some snap ->
+  activate k perm sc snap (reached ops) = Some (s', log) ->
+  lookup (SUser j) (sets (reached ops)) = Some m ->
+  lookup (SUser j) (sets s') = Some (filter (alive s') m).
+Proof. exact reached_user_set_exact. Qed.
+Print Assumptions C04_user_set_exact.
+
+(* groupby(...).do / map: the groups are visited in first-seen key order, each group's activation
+   calls only members of that group, none twice, in group order for do/map - hence nobody is called
+   twice by the whole group activation *)
+Theorem C04_groupby_once : forall ops k r m perms sc members s' logs,
+  lookup r (sets (reached ops)) = Some members ->
+  visit_groups k sc (groups_of m members) perms (reached ops) = Some (s', logs) ->
+  map fst logs = group_keys m members /\ NoDup (map fst logs) /\
+  NoDup (flat_map snd logs) /\
+  forall key l, In (key, l) logs ->
+    group_log_ok k (filter (fun a => gkey m a =? key) members) l.
+Proof. exact reached_groupby_once. Qed.
+Print Assumptions C04_groupby_once.
+
 (* what a callback receives is the caller's argument list, once per call *)
 Theorem C04_args_passthrough : forall args a log,
   obs_log args (a :: log) = a :: args ++ obs_log args log.
@@ -171,3 +194,9 @@ Proof. eexists. vm_compute. repeat split. Qed.
 
 Example C04_example_args : obs_log [7; 8] [5; 4; 1] = [5; 7; 8; 4; 7; 8; 1; 7; 8].
 Proof. reflexivity. Qed.
+
+(* groups by id mod 2 of the program-made set [5;4;2;1]: keys 1,0; 5 kills 2 before group 0 runs *)
+Example C04_example_groups :
+  exists s', visit_groups KDo ex_sc (groups_of 2 [5; 4; 2; 1]) [] (reached ex_ops)
+             = Some (s', [(1, [5; 1]); (0, [4])]).
+Proof. eexists. vm_compute. reflexivity. Qed.
